@@ -45,14 +45,39 @@ def bounds_vs_layouts(chk):
             func="compute_2d_process_grid")
     for q in ("setupCylindricalGrid", "setupFromFile"):
         f = chk.func(U.SETUPS, q)
-        from ..core import find
-        b = find(f, "mpi_size = layout_comm.Get_size()", vars=("layout_comm",))
-        ok = b is not None and contains(f, "nprocs = compute_2d_process_grid(constants.npts, mpi_size)", vars=("mpi_size",), bind=b) is not None
-        b2 = find(f, "nprocs = compute_2d_process_grid(constants.npts, mpi_size)", vars=("mpi_size",), bind=b) if b else None
-        ok = b2 is not None and contains(f, "remapper = getLayoutHandler(layout_comm, layouts, nprocs, eta_grids)",
-                                         vars=("layout_comm", "layouts", "nprocs", "eta_grids"), bind={k: v for k, v in b2.items() if k in ("layout_comm", "nprocs")})
-        chk.pat("N1-call-site", f, f"{q}: compute_2d_process_grid(constants.npts, layout_comm.Get_size())", ok,
-                "the grid sizes and the size of the communicator the layouts are built on; the result is the handler's process grid",
+        calls = [c for c in ast.walk(f) if isinstance(c, ast.Call) and src(c.func) == "compute_2d_process_grid"]
+        handlers = [c for c in ast.walk(f) if isinstance(c, ast.Call) and src(c.func) == "getLayoutHandler"]
+        if len(calls) != 1 or not handlers or len({(src(x.args[0]), src(x.args[2])) for x in handlers if len(x.args) >= 3}) != 1:
+            raise AnalysisError(f"C20: {q}: expected one compute_2d_process_grid call and getLayoutHandler calls on one communicator/grid")
+        c, h = calls[0], handlers[0]
+        ok, bad = False, None
+        if len(c.args) + len(c.keywords) == 2 and len(c.args) >= 1 and src(c.args[0]) == "constants.npts" and h.args:
+            size = c.args[1] if len(c.args) == 2 else c.keywords[0].value
+            if isinstance(size, ast.Name):
+                d = [n for n in ast.walk(f) if isinstance(n, ast.Assign) and src(n.targets[0]) == size.id]
+                size = d[0].value if len(d) == 1 else None
+            if isinstance(size, ast.Call) and isinstance(size.func, ast.Attribute) and size.func.attr == "Get_size" and not size.args:
+                cm, hc = src(size.func.value), src(h.args[0])
+                # the result must be what the handler receives as process grid
+                tgt = parent(c)
+                res_ok = isinstance(tgt, ast.Assign) and len(h.args) >= 3 and src(h.args[2]) == src(tgt.targets[0])
+                ok = cm == hc and res_ok
+                if cm != hc:
+                    bad = (f"the process count is the size of `{cm}` but the layouts are built on `{hc}`: on a rank where the two differ "
+                           "(the plot-only rank of a split communicator) the grid does not multiply to the size of the communicator it is laid on")
+        elif len(c.args) + len(c.keywords) > 2:
+            extra = [src(a) for a in c.args[2:]] + [k.arg for k in c.keywords]
+            size = c.args[1] if len(c.args) >= 2 else None
+            if isinstance(size, ast.Name):
+                d = [n for n in ast.walk(f) if isinstance(n, ast.Assign) and src(n.targets[0]) == size.id]
+                size = d[0].value if len(d) == 1 else None
+            if isinstance(size, ast.Call) and isinstance(size.func, ast.Attribute) and size.func.attr == "Get_size" and h.args \
+                    and src(size.func.value) != src(h.args[0]):
+                bad = (f"the process count is the size of `{src(size.func.value)}` (adjusted through {extra}) but the layouts are built on "
+                       f"`{src(h.args[0])}`: on a rank where the two communicators differ (the plot-only rank) the grid does not multiply "
+                       "to the size of the communicator it is laid on")
+        chk.pat("N1-call-site", c, f"{q}: compute_2d_process_grid(constants.npts, <layout communicator>.Get_size()) -> getLayoutHandler", ok,
+                "the grid sizes and the size of the communicator the layouts are built on; the result is the handler's process grid", bad,
                 file=U.SETUPS, func=q)
 
 
@@ -97,6 +122,47 @@ def search_guards(chk):
     chk.pat("N2-improvement-step", w2, "candidate accepted only within both bounds, as a pair", ok2,
             "a candidate replaces the current grid only if it respects both bounds, and both extents are replaced together",
             file=U.PROCGRID, func="compute_2d_process_grid_from_max")
+    # N3: no iteration of a search loop can leave the loop-carried state unchanged (it would repeat forever)
+    from .. import lints
+    loops = [n for n in ast.walk(fn) if isinstance(n, ast.While)]
+    for lp in loops:
+        carried, stuck, npaths = lints.stuck_iterations(lp)
+        for dec, end in stuck:
+            # the one state-preserving path of today's refinement loop is infeasible: new_n1 > nprocs1, so
+            # new_n2 = mpi_size // new_n1 <= mpi_size // nprocs1 = nprocs2 <= max_proc2 (first loop's exit condition);
+            # accepted only while the statements carrying that argument are in place (okw, ok2)
+            infeasible = lp is w2 and okw and ok2 and end == "end of body" and len(dec) >= 1 and dec[-1][1] is False and \
+                same_expr(dec[-1][0], "new_n2 <= max_proc2", vars=("new_n2",)) and \
+                contains(w2, "new_n1 = nprocs1 + 1", vars=("new_n1", "nprocs1")) is not None
+            if infeasible:
+                continue
+            shape = lp is w2 and end == "end of body" and dec and dec[-1][1] is False and \
+                same_expr(dec[-1][0], "new_n2 <= max_proc2", vars=("new_n2",))
+            chk.ob("N3-no-stuck-iteration", dec[-1][0] if dec else lp, f"iteration path ending at {end}", None if shape else False,
+                   "the state-preserving path of the refinement loop is infeasible only because new_n2 < nprocs2 <= max_proc2; the statements "
+                   "carrying that argument (first search loop, new_n1 = nprocs1 + 1, new_n2 = mpi_size // new_n1) were not all recognised" if shape else
+                   "the path " + " / ".join(f"`{src(t)}` is {v}" for t, v in dec) + f" reaches the next iteration ({end}) without changing any of the "
+                   f"loop-carried values {sorted(carried)}: the same iteration repeats forever, the search does not terminate",
+                   file=U.PROCGRID, func="compute_2d_process_grid_from_max")
+        chk.ob("N3-no-stuck-iteration", lp, f"while {src(lp.test)[:60]}", not any(True for _ in []), f"{npaths} iteration paths to the back edge examined; "
+               f"loop-carried values {sorted(carried)}", file=U.PROCGRID, func="compute_2d_process_grid_from_max", nontrivial=False)
+    # the answer is a function of the arguments alone: no memoised table is changed by a call
+    if not lints.memo_selftest():
+        raise AnalysisError("C20: the memoised-result lint no longer recognises its own positive example")
+    tree = chk.mod(U.PROCGRID).tree
+    memo, muts = lints.memoised_result_mutations(tree)
+    for f_, node, desc in muts:
+        chk.ob("N4-pure-search", node, f"memoised table changed in {f_.name}", False,
+               desc + ": the next call with the same process count starts from the shortened table and can refuse a grid that exists "
+               "(or return another one)", file=U.PROCGRID, func=f_.name)
+    chk.ob("N4-pure-search", fn, "no call changes state that a later call reads", not muts,
+           f"memoised helpers: {sorted(memo) or 'none'}; no in-place change of a memoised result; the module keeps no other state",
+           file=U.PROCGRID, func="compute_2d_process_grid_from_max", nontrivial=False)
+    glob = [n for n in ast.walk(tree) if isinstance(n, (ast.Global, ast.Nonlocal))]
+    chk.ob("N4-pure-search", glob[0] if glob else fn, "no global/nonlocal state in process_grid.py", not glob,
+           "the search functions declare no global or nonlocal variable" if not glob else
+           f"`{src(glob[0])}`: the result of a call can depend on earlier calls", file=U.PROCGRID, func="compute_2d_process_grid_from_max",
+           nontrivial=False)
     r = [n for n in fn.body if isinstance(n, ast.Return)]
     okr = len(r) == 1 and same_expr(r[0].value, "(nprocs1, nprocs2)", vars=("nprocs1", "nprocs2"))
     chk.pat("N2-factorisation", r[0] if r else fn, "return nprocs1, nprocs2", okr, "the pair is returned in (direction 0, direction 1) order",
@@ -109,7 +175,8 @@ def run(chk):
         "dimensions the standard layout dictionaries of setups.py distribute along that direction; both set-up functions pass "
         "constants.npts and the layout communicator's size and use the result as the handler's grid; the failure test after the "
         "divisor search is the negation of the loop's bound condition; the second extent is the exact quotient by a divisor; an "
-        "improved candidate is accepted only within both bounds. Termination, optimality and 'raises exactly when none exists' "
+        "improved candidate is accepted only within both bounds; no iteration path of a search loop reaches the back edge with the "
+        "loop-carried state unchanged (a necessary condition of termination). Termination in general, optimality and 'raises exactly when none exists' "
         "over the whole input space quantify over divisor arithmetic and are not decided.")
     chk.in_file(U.PROCGRID)
     bounds_vs_layouts(chk)
